@@ -653,8 +653,69 @@ func (e *Enc) strEq(x, y string) string {
 	return app("gstr.eq", x, y)
 }
 
+// litRat parses a numeric literal term (integer, decimal, (/ a b), (- x)) into a rational.
+func litRat(t string) (*big.Rat, bool) {
+	t = strings.TrimSpace(t)
+	if strings.HasPrefix(t, "(- ") && strings.HasSuffix(t, ")") {
+		r, ok := litRat(t[3 : len(t)-1])
+		if !ok {
+			return nil, false
+		}
+		return new(big.Rat).Neg(r), true
+	}
+	if strings.HasPrefix(t, "(/ ") && strings.HasSuffix(t, ")") {
+		fs := strings.Fields(t[3 : len(t)-1])
+		if len(fs) != 2 {
+			return nil, false
+		}
+		a, ok1 := litRat(fs[0])
+		b, ok2 := litRat(fs[1])
+		if !ok1 || !ok2 || b.Sign() == 0 {
+			return nil, false
+		}
+		return new(big.Rat).Quo(a, b), true
+	}
+	if strings.ContainsAny(t, " ()") || t == "" {
+		return nil, false
+	}
+	t = strings.TrimSuffix(t, ".0")
+	r, ok := new(big.Rat).SetString(t)
+	return r, ok
+}
+
+// roundToFloat64 rounds an exact rational to the nearest binary64 value (ties to even), as the hardware does.
+func roundToFloat64(r *big.Rat) *big.Rat {
+	f := new(big.Float).SetPrec(53).SetMode(big.ToNearestEven).SetRat(r)
+	out, _ := f.Rat(nil)
+	return out
+}
+
 func (fr *frame) floatBinop(i *ssa.BinOp, x, y, bc string) {
 	e := fr.e
+	if fr.opt("floatmodel") {
+		// both operands known: compute the IEEE result exactly instead of bounding it
+		if a, ok1 := litRat(e.canon(x)); ok1 {
+			if b, ok2 := litRat(e.canon(y)); ok2 {
+				var r *big.Rat
+				switch i.Op {
+				case token.ADD:
+					r = new(big.Rat).Add(a, b)
+				case token.SUB:
+					r = new(big.Rat).Sub(a, b)
+				case token.MUL:
+					r = new(big.Rat).Mul(a, b)
+				case token.QUO:
+					if b.Sign() != 0 {
+						r = new(big.Rat).Quo(a, b)
+					}
+				}
+				if r != nil {
+					fr.vals[i] = ratLit(roundToFloat64(r))
+					return
+				}
+			}
+		}
+	}
 	var exact string
 	switch i.Op {
 	case token.ADD:
@@ -678,7 +739,34 @@ func (fr *frame) floatBinop(i *ssa.BinOp, x, y, bc string) {
 	ex := e.define("fexact", "Real", exact)
 	r := e.fresh(fr.prefix+i.Name(), "Real")
 	e.assume(app("<=", app("rabs", app("-", r, ex)), app("*", "(/ 1.0 9007199254740992.0)", app("rabs", ex))))
-	e.assume(implies(and(app("is_int", ex), app("<=", app("rabs", ex), "9007199254740992.0")), eq(r, ex)))
+	// exactness: sums, differences and products of integer-valued doubles are exact while below 2^53
+	isIntVal := func(t string) bool {
+		t = e.canon(t)
+		if e.intValued[t] {
+			return true
+		}
+		r, ok := litRat(t)
+		return ok && r.IsInt()
+	}
+	if i.Op == token.QUO && isIntVal(x) && isIntVal(y) {
+		// a quotient of integer-valued doubles that is itself an integer is exact (correct rounding)
+		e.assume(implies(and(app("is_int", ex), app("<=", app("rabs", ex), "9007199254740992.0")), eq(r, ex)))
+	}
+	if i.Op != token.QUO && isIntVal(x) && isIntVal(y) {
+		inRange := app("<=", app("rabs", ex), "9007199254740992.0")
+		e.assume(implies(inRange, eq(r, ex)))
+		e.intValued[r] = true // (when in range; out of range values are not used as integers by the contracts)
+		// integer shadow: r == to_real(k) with k computed in integer arithmetic
+		sx, cx, okx := e.shadowOf(x)
+		sy, cy, oky := e.shadowOf(y)
+		if okx && oky {
+			op := map[token.Token]string{token.ADD: "+", token.SUB: "-", token.MUL: "*"}[i.Op]
+			k := e.define("ishadow", "Int", app(op, sx, sy))
+			cond := and(cx, cy, inRange)
+			e.assume(implies(cond, eq(r, app("to_real", k))))
+			e.shadow[r] = [2]string{k, cond}
+		}
+	}
 	e.floatOps = append(e.floatOps, floatOp{op: i.Op.String(), exact: ex, res: r})
 	fr.vals[i] = r
 }
@@ -697,8 +785,13 @@ func (fr *frame) convert(i *ssa.Convert, bc string, st *state) {
 			fr.setVal(i, wrapTo(to, x))
 		}
 	case isInt(from) && isFloat(to):
+		if r, ok := litRat(e.canon(x)); ok && fr.opt("floatmodel") {
+			fr.vals[i] = ratLit(roundToFloat64(r))
+			return
+		}
 		if fr.opt("floatmodel") {
 			r := e.fresh(fr.prefix+i.Name(), "Real")
+			e.intValued[r] = true
 			ex := app("to_real", x)
 			e.assume(app("<=", app("rabs", app("-", r, ex)), app("*", "(/ 1.0 9007199254740992.0)", app("rabs", ex))))
 			e.assume(implies(app("<=", app("rabs", ex), "9007199254740992.0"), eq(r, ex)))
@@ -708,6 +801,9 @@ func (fr *frame) convert(i *ssa.Convert, bc string, st *state) {
 		}
 	case isFloat(from) && isInt(to):
 		tr := app("rtrunc", x)
+		if k, c, ok := e.shadowOf(x); ok {
+			e.assume(implies(c, eq(tr, k)))
+		}
 		if fr.opt("floatconv-check") {
 			lo, hi, _ := intRange(to)
 			o := fr.oblige("floatconv", "range:"+fr.srcText(i.Pos()), bc, and(app("<=", intLit(lo), tr), app("<=", tr, intLit(hi))), i.Pos(), nil)
@@ -954,15 +1050,6 @@ func (fr *frame) ret(i *ssa.Return, bc string, st *state) {
 	env := fr.baseEnv(st)
 	env.pre = fr.entry
 	fr.bindResults(env, fr.fn, fr.spec, rs)
-	for _, c := range fr.spec.Ensures {
-		t, err := env.boolExpr(c.Text)
-		if err != nil {
-			e.errf("%s:%d: %v", c.File, c.Line, err)
-			continue
-		}
-		o := fr.oblige("ensures", c.Label, bc, t, i.Pos(), clauseProps(c, e))
-		o.Src = c.Text
-	}
 	if len(fr.spec.Exits) > 0 {
 		blk := i.Block()
 		env.lookup = func(name string) (binding, bool) { return fr.lookupLocal(name, blk, st) }
@@ -995,8 +1082,22 @@ func (fr *frame) ret(i *ssa.Return, bc string, st *state) {
 			fr.exitDone[c.Label] = true
 			o := fr.oblige("exit", c.Label, bc, t, i.Pos(), clauseProps(c, e))
 			o.Src = c.Text
+			// clauses are cumulative: once proved, a clause may be used by the clauses that follow it
+			e.assume(implies(bc, t))
 		}
 	}
+	env.lookup, env.phiOf = nil, nil
+	for _, c := range fr.spec.Ensures {
+		t, err := env.boolExpr(c.Text)
+		if err != nil {
+			e.errf("%s:%d: %v", c.File, c.Line, err)
+			continue
+		}
+		o := fr.oblige("ensures", c.Label, bc, t, i.Pos(), clauseProps(c, e))
+		o.Src = c.Text
+		e.assume(implies(bc, t))
+	}
+
 }
 
 func (fr *frame) bindResults(env *specEnv, fn *ssa.Function, spec *FuncSpec, rs []string) {
@@ -1062,4 +1163,16 @@ func (e *Enc) product(u, v string) {
 		}
 	}
 	e.products = append(e.products, prodEntry{u, v, e.curTag})
+}
+
+// shadowOf returns an Int term k and a condition c such that c ==> t == to_real(k), if one is known.
+func (e *Enc) shadowOf(t string) (string, string, bool) {
+	t = e.canon(t)
+	if sh, ok := e.shadow[t]; ok {
+		return sh[0], sh[1], true
+	}
+	if r, ok := litRat(t); ok && r.IsInt() {
+		return intLit(r.Num()), "true", true
+	}
+	return "", "", false
 }
